@@ -156,6 +156,21 @@ CHECKS: Dict[str, Dict[str, str]] = {
         note="Trusted: a definition is evaluated once (C09.R4); errors raised mid-statement are stamped with a line inside the statement.",
         design="3/C17",
     ),
+    "C04": dict(
+        technique="static analysis: the grammar file is parsed into a PEG model and the expression-rule layering is turned into a "
+        "precedence/associativity table; ordered-choice prefix analysis; resolution of every operator token through visitor, "
+        "expression function, Any method and concrete implementation (symbol-table chase); path-shape lints",
+        text="Decides the precedence clause for all expression trees at once: the nine binding levels, their token sets, left/right "
+        "associativity (`**` right-associative with an inversion on its right, unary minus over an exponential) and the "
+        "left fold are computed from the grammar layering and the chain visitor and compared with the Specification table; "
+        "PEG ordered-choice hazards (a token that is a prefix of a later alternative, integer before real, array forms) are "
+        "checked; each of 17 binary, 3 unary and the attribute operator is chased from its grammar literal to the Python "
+        "operator / frozenset operation that implements it for rationals, booleans, strings and sets, including operand order "
+        "and the swap discipline; every undefined combination ends in an InvalidOperandError; literal decoding is exact. "
+        "Fraction arithmetic itself is trusted.",
+        note="Trusted: fractions.Fraction, the operator module, frozenset algebra; parsimonious' PEG semantics.",
+        design="3/C04",
+    ),
 }
 
 NOT_APPLICABLE: Dict[str, str] = {}
